@@ -4,8 +4,10 @@ import (
 	"bytes"
 	"crypto/sha1"
 	"fmt"
+	"github.com/robfig/soy"
 	"os"
 	"os/exec"
+	"path/filepath"
 	"sort"
 	"strconv"
 	"strings"
@@ -66,10 +68,51 @@ func c13Extras(variant int, withError bool) srcFile {
 // c13Tuple compiles the files in the given order and returns everything observable, as text.
 func c13Tuple(files []srcFile, globals map[string]ref.Value, entry string, d map[string]ref.Value, ij *ref.Value) string {
 	var out bytes.Buffer
-	reg, err := compileRegistry(files, globals)
+	// files named *.globals are globals files, added after the bundle's own globals map in name order
+	var soyFiles, globalsFiles []srcFile
+	for _, f := range files {
+		if strings.HasSuffix(f.Name, ".globals") {
+			globalsFiles = append(globalsFiles, f)
+		} else {
+			soyFiles = append(soyFiles, f)
+		}
+	}
+	sort.Slice(globalsFiles, func(a, b int) bool { return globalsFiles[a].Name < globalsFiles[b].Name })
+	bnd := soy.NewBundle()
+	for _, f := range soyFiles {
+		bnd.AddTemplateString(f.Name, f.Text)
+	}
+	if len(globals) > 0 {
+		bnd.AddGlobalsMap(toDataMap(globals))
+	}
+	for _, gf := range globalsFiles {
+		m, gerr := soy.ParseGlobals(strings.NewReader(gf.Text))
+		if gerr != nil {
+			fmt.Fprintf(&out, "GLOBALS-ERROR %s\n", gerr.Error())
+			return out.String()
+		}
+		bnd.AddGlobalsMap(m)
+	}
+	c13Observe(&out, bnd, entry, d, ij)
+	return out.String()
+}
+
+// c13TupleDir is c13Tuple for sources read from a directory through Bundle.AddTemplateDir.
+func c13TupleDir(dir string, globals map[string]ref.Value, entry string, d map[string]ref.Value, ij *ref.Value) string {
+	var out bytes.Buffer
+	bnd := soy.NewBundle().AddTemplateDir(dir)
+	if len(globals) > 0 {
+		bnd.AddGlobalsMap(toDataMap(globals))
+	}
+	c13Observe(&out, bnd, entry, d, ij)
+	return out.String()
+}
+
+func c13Observe(out *bytes.Buffer, bnd *soy.Bundle, entry string, d map[string]ref.Value, ij *ref.Value) {
+	reg, err := bnd.Compile()
 	if err != nil {
-		fmt.Fprintf(&out, "COMPILE-ERROR %s\n", err.Error())
-		return out.String()
+		fmt.Fprintf(out, "COMPILE-ERROR %s\n", err.Error())
+		return
 	}
 	out.WriteString("COMPILED\n")
 	// message ids and placeholder strings, keyed by file/template so that file order does not matter
@@ -89,7 +132,7 @@ func c13Tuple(files []srcFile, globals map[string]ref.Value, entry string, d map
 	tofu := soyhtml.NewTofu(reg)
 	for _, e := range []string{entry, "ex.main"} {
 		got, rerr := render(tofu, e, d, ij, nil)
-		fmt.Fprintf(&out, "RENDER %s %s %q\n", e, errClass(rerr), got)
+		fmt.Fprintf(out, "RENDER %s %s %q\n", e, errClass(rerr), got)
 	}
 	// generated JavaScript per file, keyed by file name
 	tr := translationsFor(reg)
@@ -110,7 +153,6 @@ func c13Tuple(files []srcFile, globals map[string]ref.Value, entry string, d map
 	}
 	sort.Strings(js)
 	out.WriteString(strings.Join(js, "\n") + "\n")
-	return out.String()
 }
 
 func c13Program(seed uint64, tier string) (files []srcFile, prog *gen.Program, hasErr bool) {
@@ -142,6 +184,11 @@ func c13Program(seed uint64, tier string) (files []srcFile, prog *gen.Program, h
 		long.Text += "\n/** */\n{template .zzBad}\n" + strings.Repeat("some text {$ij.a} more text\n", 200) + "{if}\n{/template}\n"
 		files[0] = long
 		files = append(files, srcFile{"tiny.soy", "{namespace tiny}\n{template .x}{if}{/template}\n"})
+		hasErr = true
+	}
+	if r.P(1, 8) {
+		// a second source of globals that defines three names again: one error, always the same one
+		files = append(files, srcFile{"more.globals", "// overlapping definitions\nGLOBAL_INT = 5\napp.NAME = 'x'\nOTHER = 1\nFLAG = false\n"})
 		hasErr = true
 	}
 	if r.P(1, 2) {
@@ -202,7 +249,7 @@ func init() {
 		Rule: "cases = seeded bundles (C02 generator with messages and globals) plus an extras file that leans on what Go maps touch (7 callees and 9 functions / 8 directives for the ES6 import " +
 			"block, map literals that reach error messages, colliding placeholder names, plurals, globals); one third carry exactly one injected compile error (eight of the eleven flavours produce an error text that lists several names). For each bundle the observable tuple " +
 			"(accept/reject + compile error text, message ids + placeholder strings, rendered outputs, SHA-1 of the JavaScript of every file under ES5/ES6 with and without a message bundle) is " +
-			"computed 20 (thorough 60) times in-process, once in another process, and under every permutation of file insertion order (<= 4 files, else 12 sampled): all must be identical. " +
+			"computed 20 (thorough 60) times in-process, once in another process, from a directory through AddTemplateDir (every fourth case), and under every permutation of file insertion order (<= 4 files, else 12 sampled): all must be identical. " +
 			"distinct = distinct bundle; non-trivial = all",
 		N: func(tier string) int {
 			if tier == "thorough" {
@@ -262,6 +309,42 @@ func init() {
 					return mk("process", string(out))
 				}
 			}
+			// the same sources read from a directory (Bundle.AddTemplateDir walks it in lexical order): nothing but the
+			// way the text reaches the compiler differs
+			if i%4 == 1 {
+				hasGlobalsFile := false
+				for _, f := range files {
+					if strings.HasSuffix(f.Name, ".globals") {
+						hasGlobalsFile = true
+					}
+				}
+				if !hasGlobalsFile {
+					dir, derr := os.MkdirTemp("", "c13dir")
+					if derr != nil {
+						return fw.Result{Verdict: fw.Inconclusive, Key: "tempdir", Msg: derr.Error()}
+					}
+					defer os.RemoveAll(dir)
+					sorted := append([]srcFile{}, files...)
+					for k := range sorted {
+						// some files in a sub-directory; a file that is not a template beside them
+						if k%2 == 1 {
+							sorted[k].Name = filepath.Join("sub", sorted[k].Name)
+						}
+						os.MkdirAll(filepath.Dir(filepath.Join(dir, sorted[k].Name)), 0755)
+						os.WriteFile(filepath.Join(dir, sorted[k].Name), []byte(sorted[k].Text), 0644)
+						sorted[k].Name = filepath.Join(dir, sorted[k].Name)
+					}
+					os.WriteFile(filepath.Join(dir, "README.txt"), []byte("{not soy"), 0644)
+					sort.Slice(sorted, func(a, b int) bool { return sorted[a].Name < sorted[b].Name })
+					fromStrings := c13Tuple(sorted, prog.B.Globals, prog.Entry, prog.Data, prog.IJ)
+					fromDir := c13TupleDir(dir, prog.B.Globals, prog.Entry, prog.Data, prog.IJ)
+					ctx.Obs("directory_compilations", 1)
+					if fromDir != fromStrings {
+						base = fromStrings
+						return mk("from-directory", fromDir)
+					}
+				}
+			}
 			// file insertion orders
 			perms := permutations(len(files))
 			if len(files) > 4 {
@@ -309,6 +392,9 @@ func init() {
 			var why []string
 			if obs["bundles_rejected"] == 0 || obs["bundles_accepted"] == 0 {
 				why = append(why, "both accepted and rejected bundles must be observed")
+			}
+			if obs["directory_compilations"] == 0 {
+				why = append(why, "no bundle was compiled from a directory")
 			}
 			if obs["bundles_with_two_errors"] == 0 {
 				why = append(why, "no bundle with two independent errors")
